@@ -27,3 +27,18 @@ Theorem C15_swap_twice_restores : forall (s : state R) g1 g2, g1 <> g2 ->
   (forall k, k <> g1 -> k <> g2 -> s' k = s k).
 Proof. exact swap_twice_restores. Qed.
 Print Assumptions C15_swap_twice_restores.
+
+(* ---- coupling is symmetric: the registration model (model/Coupling.v = Group.couple_non_covalently) keeps the relation symmetric for every
+   sequence of registrations, and the inventory of the CURRENT source shows that partner lists are changed nowhere else *)
+From Coq Require Import String.
+From V Require Import Coupling CouplingProofs Inventory_gen.
+Theorem C15_coupling_symmetric : forall ops : list (nat * nat), symmetric (couple_all ops).
+Proof. exact couple_all_symmetric. Qed.
+Theorem C15_registration_registers_both_ways : forall s a b, In b (couple s a b a) /\ In a (couple s a b b).
+Proof. exact couple_registers. Qed.
+Theorem C15_partner_lists_change_only_by_registration :
+  forallb cw_ok coupling_writes = true
+  /\ cw_has coupling_writes "self.non_covalently_coupled_groups"%string "other"%string = true
+  /\ cw_has coupling_writes "other.non_covalently_coupled_groups"%string "self"%string = true.
+Proof. vm_compute. repeat split. Qed.
+Print Assumptions C15_coupling_symmetric.
